@@ -861,10 +861,24 @@ class FnWeaver:
                         a, b = s.toks[nk][1], s.toks[bar][2]
                         ln = self.line_at(a)
                         self.edits.append((a, b, [('%s| { let %s = %s; ' % (var, pat, var), 'repo', self.rel, ln)]))
+                        if not hasattr(self, 'cp_sites'):
+                            self.cp_sites = {}
+                        self.cp_sites[n] = len(self.edits) - 1
                         self.edits.append((end, end, [(' }', 'repo', self.rel, self.line_at(end))]))
                         self.rules.add('D16')
                         k = bar
             k = s.next_code(k)
+
+    def closure_param_spec(self, n, header):
+        """D16 + spec header: the n-th tuple-parameter closure gets `|__cpN| -> (o: T) ensures .. { let (a, b) = __cpN; E }` (specification text only;
+        lets vstd's specs of `map`/`collect` speak about what the closure returns)."""
+        sites = getattr(self, 'cp_sites', {})
+        if n not in sites:
+            self.lost.append('tuple-parameter closure %d of %s' % (n, self.qual))
+            return
+        a, b, parts = self.edits[sites[n]]
+        txt, kind, rel, ln = parts[0]
+        self.edits[sites[n]] = (a, b, [(txt.replace('| { let', '| ' + header.strip() + ' { let', 1), kind, rel, ln)])
 
     # -- hints anchored by regex on a source line
     def add_hint(self, where, regex, nth, lines, tline):
@@ -1302,6 +1316,9 @@ def weave(unit_path):
                 elif sd == 'closure':
                     cn, hdr = sarg.split(None, 1)
                     fw.annotate_closure(int(cn), hdr)
+                elif sd == 'cpspec':
+                    cn, hdr = sarg.split(None, 1)
+                    fw.closure_param_spec(int(cn), hdr)
                 elif sd == 'letarg':
                     mm2 = re.match(r'/(.*)/\s*(\d+)?\s+(\w+)$', sarg)
                     if not mm2:
